@@ -179,6 +179,32 @@ def variant(rng, d, depth=0):
   if k == 'union' and depth == 0 and rng.random() < 0.15:
     return variant(rng, rng.choice(d['cands']), depth) if rng.random() < 0.5 else (
         copy.deepcopy(rng.choice(d['cands'])))
+  if k in ('int', 'float', 'str', 'bool') and depth == 0 and rng.random() < 0.1:
+    # A frozen (and possibly noneable) primitive next to an Enum that contains
+    # its frozen value: Enum.is_compatible and extend() have special rules for
+    # frozen specs, so this pair is a family of its own.
+    try:
+      ok = [v for v in own_values(rng, build(d), 0)
+            if v is not None and _plain(v) and accepts(build(d), v)[0]]
+    except Exception:  # pylint: disable=broad-except
+      ok = []
+    if ok:
+      v = copy.deepcopy(rng.choice(ok))
+      if rng.random() < 0.5:
+        fz = dict(d, default=['v', v], frozen=True)
+        if rng.random() < 0.6:
+          fz['none'] = True
+        else:
+          fz.pop('none', None)
+        cand = fz
+      else:
+        others = [x for x in ok if x != v][:2] + ['zz']
+        cand = {'k': 'enum', 'values': [v, others[0]], 'default': ['v', v]}
+      try:
+        build(cand)
+        return cand
+      except Exception:  # pylint: disable=broad-except
+        pass
   if k in PRIM_KINDS and depth == 0 and rng.random() < 0.1:
     other = gen_spec(rng, 1, 2, [x for x in PRIM_KINDS if x != k])
     if _union_type(d) is not None and _union_type(other) not in (None, _union_type(d)):
@@ -477,7 +503,7 @@ def _pick_ok(rng, spec, depth, n):
 
 def own_values(rng, spec, depth=0):
   """Candidate values derived from the public parameters of one spec."""
-  out = []
+  out = [None]       # the noneable flag is a parameter of every spec
   if spec.has_default:
     d = spec.default
     out.append(d)
